@@ -460,6 +460,11 @@ def judge_h2(case: Dict[str, Any], obs: Any) -> None:
                 raise Violation("trailers_without_te", f"stream {sid}: {trailer}", backend=be)
             if not spec["trailers"] or trailer != [(s2b(n), s2b(v)) for n, v in spec["trailers"]]:
                 raise Violation("trailers_mismatch", f"stream {sid}: {trailer}", backend=be)
+        elif spec["trailers"] and req["te_trailers"] and trailers_sent_ok(obs, i):
+            # (the converse, for the one case that leaves no room: the client said exactly
+            # "te: trailers", the response was announced with trailers, the server took them)
+            raise Violation("trailers_lost", f"stream {sid}: the application's trailers "
+                            f"{spec['trailers']} were accepted and never sent", backend=be)
         want_body = b"" if suppressed(req["method"], spec["status"]) else body_of(spec)
         if bytes(s.data) != want_body:
             raise Violation("body_mismatch", f"stream {sid}: {len(s.data)} bytes, application "
@@ -469,6 +474,15 @@ def judge_h2(case: Dict[str, Any], obs: Any) -> None:
                             backend=be)
         if s.frames_after_end:
             raise Violation("frames_after_end", f"stream {sid}: {s.frames_after_end}", backend=be)
+
+
+def trailers_sent_ok(obs: Any, i: int) -> bool:
+    """The application of request i sent http.response.trailers and the server accepted it."""
+    for inst in obs.instances:
+        if inst.scope.get("path") == f"/r{i}":
+            return any(s_["msg"].get("type") == "http.response.trailers"
+                       and s_.get("outcome") == "ok" for s_ in inst.sends)
+    return False
 
 
 def run_case(case: Dict[str, Any]) -> CaseInfo:
